@@ -24,6 +24,7 @@ type replayFile struct {
 	Values  map[string]string `json:"values"`
 	Choices map[string]int    `json:"choices"`
 	Params  map[string]int    `json:"params"`
+	Events  []string          `json:"events"`
 }
 
 type replayOut struct {
@@ -37,6 +38,10 @@ type replayOut struct {
 }
 
 type state struct {
+	gateMu   sync.Mutex
+	gateCond *sync.Cond
+	gates    []string // order of Gate keys recorded by the engine on this path
+	gatePos  int
 	mu     sync.Mutex
 	rf     replayFile
 	names  map[string]int
@@ -159,6 +164,42 @@ func Event(parts ...any) {
 	cur.mu.Unlock()
 }
 
+// Gate marks a point of user code (a resolver call, an emitted event) whose
+// order relative to other gates is part of the schedule. The engine logs
+// the order it explored; natively each Gate waits for its turn in that
+// recorded order (then lets the woken goroutine run on for a moment), which
+// reproduces completion orders at the granularity of these points.
+func Gate(key string) {
+	st := cur
+	if st == nil {
+		return
+	}
+	st.gateMu.Lock()
+	deadline := time.Now().Add(3 * time.Second)
+	for st.gatePos < len(st.gates) && st.gates[st.gatePos] != key {
+		// is this key expected later at all?
+		later := false
+		for _, g := range st.gates[st.gatePos:] {
+			if g == key {
+				later = true
+				break
+			}
+		}
+		if !later || time.Now().After(deadline) {
+			break
+		}
+		st.gateMu.Unlock()
+		time.Sleep(2 * time.Millisecond)
+		st.gateMu.Lock()
+	}
+	if st.gatePos < len(st.gates) && st.gates[st.gatePos] == key {
+		st.gatePos++
+	}
+	st.gateMu.Unlock()
+	Event("gate " + key)
+	time.Sleep(10 * time.Millisecond) // let this goroutine reach its next blocking point before the next gate opens
+}
+
 // Symbolic reports whether the harness runs under the symbolic engine.
 func Symbolic() bool { return false }
 
@@ -233,6 +274,11 @@ func RunReplays(harnesses map[string]func(), setups map[string]func()) error {
 
 func runOne(rf replayFile, h func()) replayOut {
 	st := &state{rf: rf, names: map[string]int{}, reach: map[string]bool{}, base: runtime.NumGoroutine() + 1}
+	for _, e := range rf.Events {
+		if strings.HasPrefix(e, "gate ") {
+			st.gates = append(st.gates, strings.TrimPrefix(e, "gate "))
+		}
+	}
 	cur = st
 	out := replayOut{Harness: rf.Harness, Outcome: "ok"}
 	fin := make(chan struct{})
